@@ -316,6 +316,17 @@ def gen_params(draw, maxn=2):
     return ps
 
 
+def _names_in(e):
+    """plain names an expression reads"""
+    out = set()
+    if isinstance(e, list):
+        if len(e) == 2 and e[0] == "name" and isinstance(e[1], str):
+            out.add(e[1])
+        for x in e:
+            out |= _names_in(x)
+    return out
+
+
 def gen_cells_def(draw, G, space, name, feat, params=None):
     rank = rank_of(name)
     if params is None:
@@ -332,6 +343,12 @@ def gen_cells_def(draw, G, space, name, feat, params=None):
          "cached": True, "allow_none": None,
          "form": draw(st.sampled_from(["lambda", "def"])) if feat.defform else "lambda",
          "tick": feat.tick}
+    if c["form"] == "def" and draw(st.integers(0, 3)) == 0:
+        # the def statement carries the name of something the body reads (a sibling cells, a reference, a child
+        # space): the cells is created under its own name all the same and the body keeps meaning the sibling
+        used = sorted(_names_in(body) - {name})
+        if used:
+            c["defname"] = draw(st.sampled_from(used))
     if feat.uncached and draw(st.integers(0, feat.uncached_p - 1)) == 0:
         c["cached"] = False
     if feat.allow_none and draw(st.integers(0, 3)) == 0:
